@@ -1,5 +1,5 @@
 import Props.C01F
-import Proofs.FloatEClauses
+import Proofs.FloatEZero
 /-!
 C01 for layouts with floats in either notation: the render / parse law of E-notation float
 fields (`law_flt_E`), the read-back and stability of whole lines (`main_FE`) and the whole of
@@ -76,11 +76,39 @@ theorem law_flt_E (f : Field) (dec : Nat) (fmt c : Char) (hk : f.kind = .flt dec
   · rw [h3, hcan]; rfl
   · rw [hcan]; exact h4
 
+/-- **Zero in an E-notation field, full law**: the text (`0.000E+00`, with fewer decimals when
+the field is narrow) is `size` wide, reads back as zero of the same sign, and writing that
+zero gives the same text. -/
+theorem law_flt_E_zero (f : Field) (dec : Nat) (fmt c : Char) (hk : f.kind = .flt dec fmt [c])
+    (hfmt : fmt = 'E' ∨ fmt = 'e') (hsep : sepOk [c] = true)
+    (neg : Bool) (e : Int) (hdec : dec ≤ 12)
+    (hfits : Spec.C02.fits f (.dbl (.fin neg 0 e)) = true) :
+    RenderLaw f (.dbl (.fin neg 0 e)) := by
+  obtain ⟨hc1, hc2, hc3⟩ := sep_facts hsep
+  obtain ⟨hc4, hc5, hc6⟩ := sep_factsE hsep
+  have hgeo : f.stop = f.size + f.start := by
+    have := hfits
+    simp only [Spec.C02.fits, Bool.and_eq_true, beq_iff_eq] at this
+    exact this.1.1
+  obtain ⟨t, h1, h2, h3, h4, _⟩ :=
+    Proofs.FloatEZero.fltE_zero_core f dec fmt c hk hfmt hc1 hc2 hc3 hc4 hc5 hc6 neg e (by omega) hfits
+  have hpf : Dbl.pyFloat (replace t [c] ['.']) = some (.fin neg 0 (-1074)) := by
+    rw [hk] at h3
+    simp only [parseText] at h3
+    cases hp : Dbl.pyFloat (replace t [c] ['.']) with
+    | none => rw [hp] at h3; simp at h3
+    | some d => rw [hp] at h3; simp at h3; rw [h3]
+  have hcan : canon f (.dbl (.fin neg 0 e)) t = .dbl (.fin neg 0 (-1074)) := by
+    simp only [canon, Val.isNull, Dbl.isNaN, Bool.false_eq_true, if_false, hk, hpf]
+  refine ⟨t, ⟨h1, h2, hgeo⟩, ?_, ?_⟩
+  · rw [h3, hcan]; rfl
+  · rw [hcan]; exact h4
+
 /-- the admitted non-missing floats of the theorems for both notations -/
 def FloatFE (f : Field) (v : Val) : Prop :=
   ∀ dec fmt sep, f.kind = .flt dec fmt sep → v.isNull = true ∨
     ((fmt = 'F' ∨ fmt = 'f') ∧ dec ≤ 323 ∧ ∃ neg m e, v = .dbl (.fin neg m e) ∧ Proofs.FloatLoop.wfs m e) ∨
-    ((fmt = 'E' ∨ fmt = 'e') ∧ ∃ neg m e, v = .dbl (.fin neg m e) ∧ wfn m e)
+    ((fmt = 'E' ∨ fmt = 'e') ∧ ∃ neg m e, v = .dbl (.fin neg m e) ∧ (wfn m e ∨ m = 0))
 
 /-- **The full law from the decidable domain guard, floats in either notation included.** -/
 theorem renderLaw_of_domain_FE (f : Field) (v : Val) (h : fieldInDomain f v = true)
@@ -91,7 +119,7 @@ theorem renderLaw_of_domain_FE (f : Field) (v : Val) (h : fieldInDomain f v = tr
   · exact renderLaw_of_domain_F f v h hdate hbig hF
   · -- a non-missing float in E notation
     have : ∃ dec fmt sep, f.kind = .flt dec fmt sep ∧ (fmt = 'E' ∨ fmt = 'e') ∧
-        ∃ neg m e, v = .dbl (.fin neg m e) ∧ wfn m e := by
+        ∃ neg m e, v = .dbl (.fin neg m e) ∧ (wfn m e ∨ m = 0) := by
       apply Classical.byContradiction
       intro hno
       apply hF
@@ -113,12 +141,14 @@ theorem renderLaw_of_domain_FE (f : Field) (v : Val) (h : fieldInDomain f v = tr
         | cons _ _ => simp [sepOk] at hsep
     have hdec : dec ≤ 12 := by
       rcases hfmt with rfl | rfl <;> simpa using hnot
-    exact law_flt_E f dec fmt c hk hfmt hsep neg m e hwf hdec hfits
+    rcases hwf with hwf | rfl
+    · exact law_flt_E f dec fmt c hk hfmt hsep neg m e hwf hdec hfits
+    · exact law_flt_E_zero f dec fmt c hk hfmt hsep neg e hdec hfits
 
 /-- **C01 for layouts with floats in either notation: read-back and text stability.** For every
 layout and value list admitted by `Spec.C01.inDomain` whose non-missing floats are finite
-doubles below `2^1013` in F-notation fields of at most 323 decimals, or normal doubles below
-`2^1013` in E-notation fields (at most twelve decimals, by the domain): the model's write /
+doubles below `2^1013` in F-notation fields of at most 323 decimals, or zero or normal doubles
+between `2^-948` and `2^1013` in E-notation fields (at most twelve decimals, by the domain): the model's write /
 read / re-write cycle succeeds, the values read back are the canonical forms, and the
 re-written text is identical to the written one. -/
 theorem main_FE (fs : List Field) (vs : List Val) (h : inDomain fs vs = true)
@@ -144,7 +174,7 @@ theorem clauses_FE (f : Field) (v : Val) (r : List Char) (hd : fieldInDomain f v
   by_cases hF : FloatF f v
   · exact clauses_F f v r hd hF hrend
   · have : ∃ dec fmt sep, f.kind = .flt dec fmt sep ∧ (fmt = 'E' ∨ fmt = 'e') ∧
-        ∃ neg m e, v = .dbl (.fin neg m e) ∧ wfn m e := by
+        ∃ neg m e, v = .dbl (.fin neg m e) ∧ (wfn m e ∨ m = 0) := by
       apply Classical.byContradiction
       intro hno
       apply hF
@@ -168,26 +198,37 @@ theorem clauses_FE (f : Field) (v : Val) (r : List Char) (hd : fieldInDomain f v
       rcases hfmt with rfl | rfl <;> simpa using hnot
     obtain ⟨hc1, hc2, hc3⟩ := sep_facts hsep
     obtain ⟨hc4, hc5, hc6⟩ := sep_factsE hsep
-    have hm0 : m ≠ 0 := by
-      intro h0; subst h0
-      have := Proofs.Nearest.two_pow_pos 52
-      have := hwf.1; omega
-    obtain ⟨r', hr', hfit⟩ := round_of_fits_E f dec fmt c hk hfmt neg m e hm0 hfits
-    obtain ⟨t, h1, _, _, _, m', e', k, _, hsci, hteq⟩ :=
-      fltE_core f dec fmt c hk hfmt hc1 hc2 hc3 hc4 hc5 hc6 neg m e hwf hdec r' hr' hfit
-    have hrt : r = t := by
-      have := hrend.1
-      rw [h1] at this
-      injection this with this
-      exact this.symm
-    rw [hrt, hteq]
-    exact Proofs.FloatEClauses.floatClauses_E f dec fmt c hk hfmt hsep neg m e hm0
-      (by have := hwf.2.2.1; omega) hdec m' e' hsci k
+    rcases hwf with hwf | rfl
+    · have hm0 : m ≠ 0 := by
+        intro h0; subst h0
+        have := Proofs.Nearest.two_pow_pos 52
+        have := hwf.1; omega
+      obtain ⟨r', hr', hfit⟩ := round_of_fits_E f dec fmt c hk hfmt neg m e hm0 hfits
+      obtain ⟨t, h1, _, _, _, m', e', k, _, hsci, hteq⟩ :=
+        fltE_core f dec fmt c hk hfmt hc1 hc2 hc3 hc4 hc5 hc6 neg m e hwf hdec r' hr' hfit
+      have hrt : r = t := by
+        have := hrend.1
+        rw [h1] at this
+        injection this with this
+        exact this.symm
+      rw [hrt, hteq]
+      exact Proofs.FloatEClauses.floatClauses_E f dec fmt c hk hfmt hsep neg m e hm0
+        (by have := hwf.2.2.1; omega) hdec m' e' hsci k
+    · obtain ⟨t, h1, _, _, _, d, k, hd, hteq⟩ :=
+        Proofs.FloatEZero.fltE_zero_core f dec fmt c hk hfmt hc1 hc2 hc3 hc4 hc5 hc6 neg e (by omega) hfits
+      have hrt : r = t := by
+        have := hrend.1
+        rw [h1] at this
+        injection this with this
+        exact this.symm
+      rw [hrt, hteq]
+      exact Proofs.FloatEZero.floatClauses_E_zero f dec fmt c hk hfmt hsep neg e d hd k
 
 /-- **C01 in full, floats in either notation.** For every layout and value list admitted by
 `Spec.C01.inDomain` whose non-missing floats are finite doubles below `2^1013` in F-notation
-fields of at most 323 decimals, or normal doubles between `2^-948` and `2^1013` in E-notation
-fields: the model's write / read / re-write cycle satisfies the whole of `Spec.C01.holds` —
+fields of at most 323 decimals, or zero or normal doubles between `2^-948` and `2^1013` in
+E-notation fields: the model's write / read / re-write cycle satisfies the whole of
+`Spec.C01.holds` —
 values read back are the canonical forms, the re-written text is identical, and every float is
 written in the configured dialect and within half a unit of its last emitted digit (F
 notation: with the largest number of decimals that fits). -/
@@ -225,6 +266,6 @@ example :
   · intro dec fmt sep hk
     simp only [Field.mk', Kind.flt.injEq] at hk
     obtain ⟨rfl, rfl, rfl⟩ := hk
-    exact Or.inr (Or.inr ⟨Or.inl rfl, false, _, _, rfl, by decide, by decide, by decide, by decide⟩)
+    exact Or.inr (Or.inr ⟨Or.inl rfl, false, _, _, rfl, Or.inl ⟨by decide, by decide, by decide, by decide⟩⟩)
 
 end Props.C01
